@@ -361,4 +361,21 @@ theorem jet_classification (F : JetSpec) (hg : grammarJet F = true) :
   simp only [obsJet, jetLinesText, List.map_cons, beq_self_eq_true, Bool.true_and, Bool.and_eq_true, beq_iff_eq]
   exact ⟨⟨jet_head_obs F hg, rfl⟩, obsJBody_events F.partons F F.events hev (jet_trailer_obs F.partons hsep htr s1 s2 f1 f2)⟩
 
+/-- events numbered 1, 2, 3, … (what JETSCAPE writes; C02 states its theorems for such files), at least one -/
+def wfJetSeq (F : JetSpec) : Prop :=
+  F.events ≠ [] ∧ ∀ i (h : i < F.events.length), (F.events[i]).label = ((i + 1 : Nat) : Int)
+
+theorem wfJet_of_seq {F : JetSpec} (h : wfJetSeq F) : wfJet F := by
+  obtain ⟨hne, hlab⟩ := h
+  cases hE : F.events with
+  | nil => exact absurd hE hne
+  | cons e es =>
+    refine ⟨e, es, hE, ?_, ?_⟩
+    · have := hlab 0 (by simp [hE]); simpa [hE] using this
+    · intro e' he'
+      obtain ⟨i, hi, rfl⟩ := List.getElem_of_mem he'
+      have := hlab (i + 1) (by simp [hE]; omega)
+      simp only [hE, List.getElem_cons_succ] at this
+      rw [this]; omega
+
 end SparkxVerif.Rd
